@@ -2,6 +2,7 @@ import Sekai.Driver.NetProps
 import Sekai.Driver.Perm
 import Sekai.Driver.Gov
 import Sekai.Driver.Mint
+import Sekai.Driver.Stake
 /-! `sekai-model`: the model side of the correspondence check. One op per input line
 (`<domain> <op> <args…>`), one canonical observation per output line. Core Lean only. -/
 open Sekai
@@ -10,6 +11,7 @@ structure World where
   props : Driver.NetProps.St := {}
   perm : Driver.Perm.D := {}
   gov : Gov.St := {}
+  stake : Driver.Stake.D := {}
 
 def dispatch (w : World) (line : String) : World × String :=
   let toks := (line.trimAscii.toString.splitOn " ").filter (· ≠ "")
@@ -18,6 +20,7 @@ def dispatch (w : World) (line : String) : World × String :=
   | "perm" :: rest => let (s, o) := Driver.Perm.step w.perm rest; ({ w with perm := s }, o)
   | "gov" :: rest => let (s, o) := Driver.Gov.step w.perm.s w.gov rest; ({ w with gov := s }, o)
   | "mint" :: rest => (w, Driver.Mint.step rest)
+  | "stake" :: rest => let (s, o) := Driver.Stake.step w.stake rest; ({ w with stake := s }, o)
   | ["reset"] => ({}, "ok")
   | [] => (w, "")
   | _ => (w, "bad-op")
